@@ -84,7 +84,7 @@ def _vec(c, k, pos=False):
 
 @entry()
 def e_copy(c):
-    kind = _pick(c, ['tt', 'tt', 'array', 'number', 'none', '0d'])
+    kind = _pick(c, ['tt', 'tt', 'array', 'number', 'number', 'none', '0d'])
     if kind == 'tt':
         return Call('copy', teneva.copy, [c.tt()])
     if kind == '0d':
@@ -92,7 +92,7 @@ def e_copy(c):
     if kind == 'array':
         return Call('copy', teneva.copy, [c.own(c.rng.standard_normal((3, 2)))])
     if kind == 'number':
-        return Call('copy', teneva.copy, [1.5], passthrough=True)
+        return Call('copy', teneva.copy, [_pick(c, [1.5, 3])], passthrough=True)
     return Call('copy', teneva.copy, [None], passthrough=True)
 
 
@@ -207,9 +207,9 @@ def _binary(name):
             Y = c.tt()
             return Call(name, fn, [Y, Y])
         if k == 'tt_num':
-            return Call(name, fn, [c.tt(), float(c.rng.standard_normal())])
+            return Call(name, fn, [c.tt(), _pick(c, [float(c.rng.standard_normal()), 2, -1])])
         if k == 'num_tt' and name != 'sub':
-            return Call(name, fn, [float(c.rng.standard_normal()), c.tt()])
+            return Call(name, fn, [_pick(c, [float(c.rng.standard_normal()), 3, -2]), c.tt()])
         if k == 'num_tt':
             return Call(name, fn, [c.tt(), 2])
         return Call(name, fn, [2.0, 3], passthrough=True)
@@ -671,7 +671,7 @@ def e_ind_to_poi(c):
     I = c.own(I)
     if c.rng.random() < 0.3:
         I = c.own(I[0].copy())
-    return Call('ind_to_poi', teneva.ind_to_poi, [I, a, b, _pick(c, [c.own(nn), c.own(np.array(nn))])],
+    return Call('ind_to_poi', teneva.ind_to_poi, [I, a, b, _pick(c, [c.own(nn), c.own(np.array(nn)), max(nn), float(max(nn))])],
                 {'kind': _pick(c, ['uni', 'cheb'])})
 
 
@@ -758,7 +758,10 @@ def _eqshape(c, allow_one=False):
 @entry()
 def e_func_basis(c):
     X = c.own(c.rng.uniform(-1, 1, (int(c.rng.integers(1, 5)), int(c.rng.integers(1, 4)))))
-    return Call('func_basis', teneva.func_basis, [X], {'m': int(c.rng.integers(1, 6))})
+    kw = {'m': int(c.rng.integers(1, 6))}
+    if c.rng.random() < 0.3:
+        kw['kind'] = 'cheb'
+    return Call('func_basis', teneva.func_basis, [X], kw)
 
 
 @entry()
@@ -858,7 +861,8 @@ def e_func_get_full(c):
 def e_func_gets_full(c):
     A, nn, d = _dense_eq(c)
     kw = {} if c.rng.random() < 0.5 else {'m': _pick(c, [nn + 1, c.own([nn + 1] * d), c.own(np.array([nn + 1] * d))])}
-    return Call('func_gets_full', teneva.func_gets_full, [A, -1.0, 1.0], kw)
+    a, b = _pick(c, [(-1.0, 1.0), (c.own([-1.0] * d), c.own([1.0] * d)), (c.own(-np.ones(d)), c.own(np.ones(d)))])
+    return Call('func_gets_full', teneva.func_gets_full, [A, a, b], kw)
 
 
 @entry()
@@ -900,6 +904,8 @@ def e_optima_tt_beam(c):
 @entry()
 def e_optima_tt_maxvol(c):
     kw = {'k': int(c.rng.integers(1, 6)), 'how': _pick(c, ['smart', 'l2r', 'r2l', 'both'])}
+    if c.rng.random() < 0.3:
+        kw['use'] = 'mv'
     return Call('optima_tt_maxvol', teneva.optima_tt_maxvol, [c.tt()], kw, may_fail=True)
 
 
@@ -1080,6 +1086,8 @@ def e_anova_func(c):
     d = len(c.n)
     X, y = _trn_func(c, d)
     kw = {} if c.rng.random() < 0.4 else {'a': -1.5, 'b': 1.5, 'lamb': 1e-4, 'e': _pick(c, [1e-8, None])}
+    if kw and c.rng.random() < 0.5:
+        kw['a'], kw['b'] = _pick(c, [(c.own([-1.5] * d), c.own([1.5] * d)), (c.own(-1.5 * np.ones(d)), c.own(1.5 * np.ones(d)))])
     return Call('anova_func', teneva.anova_func, [X, y, int(c.rng.integers(2, 5))], kw)
 
 
@@ -1213,6 +1221,8 @@ def e_als(c):
         kw['r'] = int(c.rng.integers(3, 5))
         if 'I_vld' in kw and c.rng.random() < 0.4:
             kw['allow_swap'] = True        # documented as an experimental flag; needs r and a validation set
+            if c.rng.random() < 0.5:
+                kw['swap_tol'] = int(_pick(c, [1, 3, 10]))
         kw.update(r_add=int(_pick(c, [1, 10000])), e_adap=1e-3)   # use_stab=True raises for every input on the pinned tree (orthogonalize returns a pair)
     if c.rng.random() < 0.2:
         kw['allow_skip_cores'] = True
@@ -1285,6 +1295,10 @@ def e_als_func(c):
     if c.rng.random() < 0.4:
         kw['lamb'] = _pick(c, [1e-3, 0.1, None])
     if c.rng.random() < 0.3:
+        kw['e'] = float(_pick(c, [1e-16, 1e-3]))
+    if c.rng.random() < 0.2:
+        kw['thr_pow'] = float(_pick(c, [1e-6, 1e-3]))
+    if c.rng.random() < 0.3:
         kw['X_vld'] = c.own(c.rng.uniform(-1, 1, (5, d)))
         kw['y_vld'] = c.own(c.rng.standard_normal(5) + 1)
         if c.rng.random() < 0.5:
@@ -1301,6 +1315,83 @@ def e_als_func(c):
     if c.rng.random() < 0.1:
         kw['log'] = True
     return Call('als_func', teneva.als_func, [X, y, A0], kw, mutable=mutable, defaults_dict=dd)
+
+
+# ------------------------------------------------------------------ documented argument types (doc-driven representation jitter)
+
+_DOC_TYPES = {}
+
+
+def documented_types(fn):
+    """{parameter: [documented type names]} parsed from the Args section of the docstring."""
+    import re
+    key = getattr(fn, '__qualname__', repr(fn))
+    if key not in _DOC_TYPES:
+        out = {}
+        doc = getattr(fn, '__doc__', None) or ''
+        m = re.search(r'Args:(.*?)(Returns:|Note:|$)', doc, flags=re.S)
+        if m:
+            for pm in re.finditer(r'^\s{8}(\w+) \(([^)]*)\):', m.group(1), flags=re.M):
+                out[pm.group(1)] = [t.strip() for t in pm.group(2).split(',')]
+        _DOC_TYPES[key] = out
+    return _DOC_TYPES[key]
+
+
+def _numbers_only(v, depth=0):
+    if isinstance(v, (bool, str)) or v is None:
+        return False
+    if isinstance(v, (int, float, np.integer, np.floating)):
+        return True
+    if isinstance(v, (list, tuple)) and depth < 2 and len(v) > 0:
+        return all(_numbers_only(x, depth + 1) for x in v)
+    return False
+
+
+def jitter_types(call, c, prob=0.3):
+    """Re-express arguments in another representation the docstring allows for that parameter: int <-> float (integral values),
+    list <-> np.ndarray (lists of numbers only). Values are preserved; the new object is registered with the caller."""
+    import inspect
+    try:
+        params = list(inspect.signature(call.fn).parameters)
+    except (TypeError, ValueError):
+        return call
+    doc = documented_types(call.fn)
+
+    def conv(pname, v):
+        types = doc.get(pname)
+        if not types or c.rng.random() >= prob:
+            return v
+        if isinstance(v, bool) or v is None or callable(v):
+            return v
+        if isinstance(v, (int, np.integer)) and 'float' in types:
+            return float(v)
+        if isinstance(v, float) and 'int' in types and v == int(v) and abs(v) < 2 ** 31:
+            return int(v)
+        if isinstance(v, list) and 'np.ndarray' in types and _numbers_only(v):
+            try:
+                return c.own(np.array(v))
+            except Exception:
+                return v
+        if isinstance(v, np.ndarray) and 'list' in types and 1 <= v.ndim <= 2 and v.size <= 200 and v.dtype.kind in 'iuf':
+            return c.own(v.tolist())
+        return v
+    for i, p in enumerate(params[:len(call.args)]):
+        if i in call.mutable:
+            continue
+        call.args[i] = conv(p, call.args[i])
+    for k in list(call.kwargs):
+        if k in call.mutable or k == call.seed_kw:
+            continue
+        call.kwargs[k] = conv(k, call.kwargs[k])
+    return call
+
+
+def build(name, c):
+    """Build a call of catalogue entry `name` with context c (builder + doc-driven representation jitter)."""
+    call = ENTRIES[name]['build'](c)
+    if not call.passthrough or name in ('grid_prep_opt', 'grid_prep_opts', 'core_stab'):
+        call = jitter_types(call, c)
+    return call
 
 
 def exported_callables():
